@@ -249,6 +249,9 @@ func (d *Descriptor) readAsMapEntry(out Outputter, data []byte) (n int, err erro
 
 	l := len(data)
 
+	// The key and the value are omitted from the data when they are zero, but
+	// a JSON object member needs both
+	var seenKey, seenValue bool
 	var offset int
 	for offset < l {
 		wt, index, n := plenccore.ReadTag(data[offset:])
@@ -291,6 +294,17 @@ func (d *Descriptor) readAsMapEntry(out Outputter, data []byte) (n int, err erro
 			fl = int(v) + offset
 		}
 
+		switch elt {
+		case &d.Elements[0]:
+			seenKey = true
+		case &d.Elements[1]:
+			if !seenKey {
+				out.NameField("")
+				seenKey = true
+			}
+			seenValue = true
+		}
+
 		n, err := elt.read(out, data[offset:fl])
 		if err != nil {
 			return 0, fmt.Errorf("failed reading field %d(%s) of %s. %w", index, elt.Name, d.Name, err)
@@ -298,7 +312,53 @@ func (d *Descriptor) readAsMapEntry(out Outputter, data []byte) (n int, err erro
 		offset += n
 	}
 
+	if !seenKey {
+		out.NameField("")
+	}
+	if !seenValue {
+		d.Elements[1].zero(out)
+	}
+
 	return offset, nil
+}
+
+// zero outputs the value a field has when it is absent from the data
+func (d *Descriptor) zero(out Outputter) {
+	if d.ExplicitPresence {
+		out.Raw("null")
+		return
+	}
+	switch d.Type {
+	case FieldTypeInt, FieldTypeFlatInt:
+		if d.LogicalType == LogicalTypeTimestamp {
+			out.Time(time.Time{})
+			return
+		}
+		out.Int64(0)
+	case FieldTypeUint:
+		out.Uint64(0)
+	case FieldTypeFloat32:
+		out.Float32(0)
+	case FieldTypeFloat64:
+		out.Float64(0)
+	case FieldTypeString:
+		out.String("")
+	case FieldTypeBool:
+		out.Bool(false)
+	case FieldTypeTime:
+		out.Time(time.Time{})
+	case FieldTypeStruct, FieldTypeJSONObject:
+		out.StartObject()
+		out.EndObject()
+	case FieldTypeSlice, FieldTypeJSONArray:
+		if d.isValidJSONMap() {
+			out.StartObject()
+			out.EndObject()
+			return
+		}
+		out.StartArray()
+		out.EndArray()
+	}
 }
 
 func (d *Descriptor) readAsStruct(out Outputter, data []byte) (n int, err error) {
